@@ -334,3 +334,67 @@ harness!(en_raw_chain__s8_4one, en_raw, S8_4ONE, Raw::ChainReplaceNoneThenInsert
 harness!(en_raw_chain__u4f, en_raw, U4F, Raw::ChainReplaceNoneThenInsert);
 harness!(en_raw_occ_misc__s8_8g0, en_raw, S8_8G0, Raw::OccMisc);
 harness!(en_raw_occ_misc__s8_8g4, en_raw, S8_8G4, Raw::OccMisc);
+
+// ------------------------------------------------------------------ the `Entry` enum itself
+// With *concrete* keys (element in main bucket i has key i, in old bucket i key 16 + i; values
+// symbolic) `entry(K)` has a concrete outcome and the occupied arm of the enum's own methods
+// becomes tractable. This executes `Entry::insert` / `Entry::and_modify` / `Entry::or_insert`
+// (occupied arm) and `Entry::key`, which the hook-based harnesses above bypass.
+fn build_ck(sh: Shape, id: u8) -> M {
+    let hf = |kv: &(u8, u8)| hash_of(id, &kv.0);
+    let main: HB<(u8, u8)> = HB::verif_build(sh.mb, sh.mfull, sh.mdel, |i| (i as u8, kani::any()), hf);
+    let old = sh.old.map(|o| {
+        let t: HB<(u8, u8)> = HB::verif_build(o.b, o.full, o.del, |i| (16 + i as u8, kani::any()), hf);
+        let it = unsafe { t.verif_iter_at(o.g) };
+        (t, it)
+    });
+    M::verif_from_parts(S { id }, main, old)
+}
+
+fn en_enum_occupied(sh: Shape, p: (u8, u8)) {
+    let (k, which) = p;
+    let mut m = build_ck(sh, 1);
+    let q: u8 = kani::any();
+    let v: u8 = kani::any();
+    let w: u8 = kani::any();
+    let pre_q = ref_get(&m, &q);
+    let pre_k = ref_get(&m, &k);
+    assert!(pre_k.is_some(), "[harness] the concrete key must be present");
+    let n = m.len();
+    let mut want_k = pre_k;
+    match which {
+        0 => {
+            // Entry::insert on an occupied entry: the returned handle designates the element
+            let mut o = m.entry(k).insert(v);
+            assert!(*o.key() == k && *o.get() == v, "[C12] handle returned by Entry::insert designates a wrong element");
+            *o.get_mut() = w;
+            want_k = Some(w);
+        }
+        1 => {
+            let r = m.entry(k).and_modify(|x| *x = v).or_insert(w);
+            assert!(*r == v, "[C12] and_modify().or_insert() on an occupied entry returned a wrong reference");
+            *r = w;
+            want_k = Some(w);
+        }
+        _ => {
+            let e = m.entry(k);
+            assert!(*e.key() == k, "[C12] Entry::key() wrong");
+            let r = e.or_insert_with(|| v);
+            assert!(Some(*r) == pre_k, "[C12] or_insert_with on an occupied entry returned a wrong reference");
+            *r = w;
+            want_k = Some(w);
+        }
+    }
+    let sq = scan(&m, &q);
+    assert!(sq.val == if q == k { want_k } else { pre_q }, "[C12] the map does not reflect what was done through the handle returned by an Entry method");
+    assert!(m.len() == n, "[C01] len() changed by an operation on an occupied entry");
+    post_inv(&m, &sq);
+    assert!(m.get(&k).copied() == want_k, "[C12] a later lookup does not see the write made through the handle");
+    kani::cover!(true, "reach: end of harness");
+    core::mem::forget(m);
+}
+// NOT REGISTERED: even with concrete keys these harnesses do not finish within 10 minutes (the
+// symbolic value moves through the two-dataful-variant enum). The `Entry` enum's own methods
+// (insert, or_insert*, or_default, and_modify, and_replace_entry_with, key) stay outside the C12
+// claim; a seeded change inside `Entry::insert` (seeded/r2_C12) is therefore not detected.
+// harness!(en_enum_insert__s8_8g0_k18, en_enum_occupied, S8_8G0, (18, 0));
